@@ -5,6 +5,7 @@ CONSTANTS
   EofWithData = TRUE
   ShapesA <- LocalShapes
   ShapesB <- AllShapes
+  DevDrainDeadline = FALSE
   DevCloseWriterFallback = FALSE
   Emit = FALSE
   Classes = {1, 2, 3, 4}
@@ -21,10 +22,12 @@ CONSTANTS
   DevSpin = FALSE
   DevNoUnblock = FALSE
   DevAliasFlush = FALSE
+  SockBatch = FALSE
+  DevNoInnerFlush = FALSE
   SockQueue = TRUE
   DevQueueRefs = FALSE
   DevDropOnClose = FALSE
 SPECIFICATION USpec
-INVARIANTS UTypeOK UDatagrams UComplete UCompleteAny UEncoded UFlushed UMutex UBuf
+INVARIANTS UTypeOK UDatagrams UComplete UCompleteAny UEncoded UFlushed UMutex UBuf UBatchFits
 PROPERTIES UDelivMonotone UEventuallyFlushed UTermination UQueueDrains
 CHECK_DEADLOCK FALSE
